@@ -229,3 +229,163 @@ pub fn case_unwrap_or_default_map_or() -> Vec<i64> {
     let b: Option<i64> = Some(4);
     vec![a.unwrap_or_default(), b.map_or(0, |x| x * 2), a.map_or(7, |x| x), b.filter(|x| *x > 5).unwrap_or(-1), a.or(b).unwrap_or(0), b.xor(a).unwrap_or(0)]
 }
+
+// ---------------------------------------------------------------- second batch
+pub fn case_str_find_indices() -> Vec<String> {
+    let s = "a<b>é</b>c{{ x }}";
+    vec![format!("{:?}", s.find('<')), format!("{:?}", s.find("</")), format!("{:?}", s.rfind('>')), format!("{:?}", s.find("zz")),
+         format!("{:?}", s.match_indices("b>").map(|(i, _)| i).collect::<Vec<_>>()), format!("{:?}", s.split_at(4)), format!("{:?}", &s[1..4]),
+         format!("{:?}", s.split_once("{{")), format!("{:?}", s.char_indices().nth(4)), format!("{}", s.len()), format!("{}", s.chars().count())]
+}
+pub fn case_str_trim_strip() -> Vec<String> {
+    let s = "\n  __x__ \t";
+    vec![s.trim().to_string(), s.trim_start().to_string(), s.trim_end().to_string(), s.trim().trim_matches('_').to_string(), s.trim().trim_start_matches("__").to_string(),
+         format!("{:?}", s.trim().strip_prefix("__")), format!("{:?}", s.trim().strip_suffix("!")), format!("{}", s.trim().is_empty()), format!("{}", "   ".trim().is_empty())]
+}
+pub fn case_str_split_variants() -> Vec<String> {
+    let s = "a.b..c";
+    vec![format!("{:?}", s.split('.').collect::<Vec<_>>()), format!("{:?}", s.splitn(2, '.').collect::<Vec<_>>()), format!("{:?}", s.rsplit('.').collect::<Vec<_>>()),
+         format!("{:?}", s.split("..").collect::<Vec<_>>()), format!("{:?}", "a b  c".split_whitespace().collect::<Vec<_>>()), format!("{:?}", s.rsplit_once('.')),
+         format!("{:?}", "k_ordinal_one".rsplit_once('_')), format!("{:?}", "k_ordinal".strip_suffix("_ordinal")), format!("{:?}", "x_ordinal_ordinal".trim_end_matches("_ordinal"))]
+}
+pub fn case_str_bytes_chars() -> Vec<String> {
+    let s = "aé\u{1f600}";
+    vec![format!("{:?}", s.bytes().map(|b| b as u32).collect::<Vec<_>>().len()), format!("{:?}", s.chars().map(|c| c.len_utf8()).collect::<Vec<_>>()),
+         format!("{}", s.is_char_boundary(2)), format!("{}", s.is_ascii()), format!("{:?}", s.chars().rev().collect::<String>()), format!("{:?}", s.chars().next()),
+         format!("{:?}", s.chars().last()), format!("{}", 'é'.is_alphabetic()), format!("{}", '1'.is_ascii_digit()), format!("{}", ' '.is_whitespace())]
+}
+pub fn case_string_building() -> String {
+    let mut s = String::new();
+    s.push_str("ab");
+    s.push('c');
+    s.insert(0, '>');
+    s += "d";
+    s.extend(['e', 'f']);
+    let t = s.clone() + "!";
+    format!("{}|{}|{}|{}", s, t, s.len(), s.contains("cd"))
+}
+pub fn case_option_combinators() -> Vec<String> {
+    let a: Option<i64> = Some(3);
+    let n: Option<i64> = None;
+    vec![format!("{:?}", a.map(|x| x + 1)), format!("{:?}", a.and_then(|x| if x > 5 { Some(x) } else { None })), format!("{:?}", n.or_else(|| Some(9))),
+         format!("{:?}", a.ok_or("e")), format!("{:?}", n.ok_or_else(|| "e2".to_string())), format!("{:?}", a.zip(Some('c'))), format!("{:?}", a.is_some_and(|x| x == 3)),
+         format!("{:?}", n.is_none()), format!("{:?}", a.unwrap_or(0) + n.unwrap_or(10)), format!("{:?}", a.as_ref().map(|x| *x * 2)), format!("{:?}", a.iter().chain(n.iter()).count())]
+}
+pub fn case_result_combinators() -> Vec<String> {
+    let a: Result<i64, String> = Ok(3);
+    let e: Result<i64, String> = Err("bad".to_string());
+    vec![format!("{:?}", a.clone().map(|x| x * 2)), format!("{:?}", e.clone().map_err(|s| s.len())), format!("{:?}", a.clone().ok()), format!("{:?}", e.clone().ok()),
+         format!("{:?}", e.clone().err()), format!("{:?}", a.clone().and_then(|x| if x > 1 { Ok(x) } else { Err("small".to_string()) })), format!("{:?}", e.clone().unwrap_or(7)),
+         format!("{:?}", e.clone().unwrap_or_else(|s| s.len() as i64)), format!("{:?}", a.is_ok()), format!("{:?}", e.is_err())]
+}
+pub fn case_question_mark() -> Vec<String> {
+    fn f(v: &[i64]) -> Option<i64> { let a = v.first()?; let b = v.get(1)?; Some(a + b) }
+    fn g(s: &str) -> Result<i64, String> { let n: i64 = s.parse().map_err(|_| format!("nan: {}", s))?; if n < 0 { return Err("neg".into()); } Ok(n * 2) }
+    vec![format!("{:?}", f(&[1, 2])), format!("{:?}", f(&[1])), format!("{:?}", g("21")), format!("{:?}", g("x")), format!("{:?}", g("-1"))]
+}
+pub fn case_vec_ops() -> Vec<String> {
+    let mut v = vec![3, 1, 2];
+    v.sort();
+    let sorted = v.clone();
+    v.reverse();
+    v.insert(1, 9);
+    let removed = v.remove(0);
+    v.swap(0, 1);
+    v.truncate(2);
+    let last = v.last().copied();
+    let popped = v.pop();
+    vec![format!("{:?}", sorted), format!("{:?}", v), format!("{}", removed), format!("{:?}", last), format!("{:?}", popped), format!("{:?}", v.first()),
+         format!("{:?}", vec![1, 2, 3].iter().position(|x| *x == 3)), format!("{:?}", vec![1, 2, 3].contains(&2)), format!("{:?}", vec![1, 2, 3].iter().max()),
+         format!("{:?}", vec![1, 2, 3].iter().sum::<i64>()), format!("{:?}", vec![0; 3]), format!("{:?}", [1, 2, 3, 4].windows(2).map(|w| w[0] + w[1]).collect::<Vec<_>>())]
+}
+pub fn case_iter_adaptors() -> Vec<String> {
+    let v = vec![1, 2, 3, 4, 5, 6];
+    vec![format!("{:?}", v.iter().filter(|x| **x % 2 == 0).collect::<Vec<_>>()), format!("{:?}", v.iter().filter_map(|x| if *x > 4 { Some(x * 10) } else { None }).collect::<Vec<_>>()),
+         format!("{:?}", v.iter().take_while(|x| **x < 3).collect::<Vec<_>>()), format!("{:?}", v.iter().skip_while(|x| **x < 5).collect::<Vec<_>>()),
+         format!("{:?}", v.iter().step_by(2).collect::<Vec<_>>()), format!("{:?}", v.iter().fold(0, |a, x| a * 2 + x)), format!("{:?}", v.iter().all(|x| *x > 0)),
+         format!("{:?}", v.iter().flat_map(|x| vec![*x; (*x % 3) as usize]).collect::<Vec<_>>()), format!("{:?}", v.iter().last()), format!("{:?}", v.iter().nth(10)),
+         format!("{:?}", v.iter().map(|x| x.to_string()).collect::<Vec<_>>().join("-")), format!("{:?}", v.iter().min_by_key(|x| (**x - 4i64).abs())),
+         format!("{:?}", v.iter().partition::<Vec<i64>, _>(|x| **x > 3)), format!("{:?}", v.chunks(4).map(|c| c.to_vec()).collect::<Vec<_>>())]
+}
+pub fn case_peekable() -> Vec<i64> {
+    let v = vec![1, 2, 3];
+    let mut it = v.iter().peekable();
+    let mut out = Vec::new();
+    while let Some(x) = it.next() {
+        out.push(*x);
+        if let Some(nx) = it.peek() { out.push(**nx * 10); }
+    }
+    out
+}
+pub fn case_while_let_pop() -> Vec<i64> {
+    let mut stack = vec![1, 2, 3];
+    let mut out = Vec::new();
+    while let Some(top) = stack.pop() {
+        out.push(top);
+        if top == 3 { stack.push(7); }
+    }
+    out
+}
+pub fn case_nested_struct_update() -> String {
+    #[derive(Debug, Clone, Default)]
+    struct Inner { n: i64, tags: Vec<String> }
+    #[derive(Debug, Clone, Default)]
+    struct Outer { inner: Inner, name: String }
+    let mut o = Outer::default();
+    o.inner.n += 2;
+    o.inner.tags.push("t".into());
+    o.name.push_str("nm");
+    let p = Outer { name: "other".into(), ..o.clone() };
+    format!("{:?}|{:?}", o, p)
+}
+pub fn case_match_tuple_bindings() -> Vec<i64> {
+    fn f(a: Option<i64>, b: Option<i64>) -> i64 {
+        match (a, b) {
+            (Some(x), Some(y)) if x == y => 100 + x,
+            (Some(x), Some(y)) => x * 10 + y,
+            (Some(x), None) | (None, Some(x)) => x,
+            (None, None) => -1,
+        }
+    }
+    vec![f(Some(2), Some(2)), f(Some(2), Some(3)), f(Some(4), None), f(None, Some(5)), f(None, None)]
+}
+pub fn case_if_let_else_chain() -> Vec<i64> {
+    fn f(v: &V) -> i64 {
+        if let V::A(n) = v { *n } else if let V::B(s) = v { s.len() as i64 } else { -1 }
+    }
+    fn g(o: Option<i64>) -> i64 { let Some(x) = o else { return -7; }; x + 1 }
+    vec![f(&V::A(5)), f(&V::B("abc".into())), f(&V::C), g(Some(1)), g(None)]
+}
+pub fn case_closure_captures_mutation() -> Vec<i64> {
+    let mut count = 0;
+    let mut log = Vec::new();
+    let mut bump = |by: i64| { count += by; log.push(count); };
+    bump(2);
+    bump(3);
+    log.push(count * 100);
+    log
+}
+pub fn case_btreeset_ops() -> Vec<String> {
+    use std::collections::BTreeSet;
+    let mut s: BTreeSet<String> = BTreeSet::new();
+    let a = s.insert("b".into());
+    let b = s.insert("b".into());
+    s.insert("a".into());
+    let had = s.contains("a");
+    let rm = s.remove("a");
+    let rm2 = s.remove("zz");
+    vec![format!("{} {} {} {} {}", a, b, had, rm, rm2), format!("{:?}", s.len()), format!("{:?}", s.is_empty())]
+}
+pub fn case_shadowing_and_blocks() -> i64 {
+    let x = 1;
+    let y = {
+        let x = x + 10;
+        let x = x * 2;
+        x
+    };
+    let x = x + y;
+    x
+}
+pub fn case_integer_semantics() -> Vec<i64> {
+    vec![7 / 2, -7 / 2, 7 % 3, -7 % 3, (7i64).pow(2), (-7i64).abs(), 5i64.min(3), 5i64.max(3), (5u64).saturating_sub(9) as i64, 3i64.signum(), (10usize).div_ceil(4) as i64, 1 << 4, 0xff & 0x0f, 6 ^ 3]
+}
